@@ -27,6 +27,10 @@ type features struct {
 	// loadDestOverwritten: a load's destination register is written again by
 	// another instruction within 16 executed instructions
 	loadDestOverwritten bool
+	// warAfterLoadUse: a consumer of a load result (within 6 instructions of the
+	// load) has another source register that a younger instruction rewrites
+	// within 8 executed instructions
+	warAfterLoadUse bool
 	// loadBeforeRedirect: a load is followed within 16 executed instructions by a redirect
 	loadBeforeRedirect bool
 	// memBeforeRedirect: any load/store followed within 24 executed instructions by a redirect
@@ -208,6 +212,34 @@ func featuresOf(c *core.Case) *features {
 				lastLoadDest[rd] = i
 			} else {
 				delete(lastLoadDest, rd)
+			}
+		}
+	}
+	for i, st := range ref.Trace {
+		ld := p.Insts[st.Idx]
+		if !ld.Op.IsLoad() || ld.Rd == isa.Zero {
+			continue
+		}
+		for j := i + 1; j < len(ref.Trace) && j <= i+6; j++ {
+			cons := p.Insts[ref.Trace[j].Idx]
+			uses := false
+			for _, r := range cons.Reads() {
+				if r == ld.Rd {
+					uses = true
+				}
+			}
+			if !uses {
+				continue
+			}
+			for _, r := range cons.Reads() {
+				if r == isa.Zero {
+					continue
+				}
+				for k := j + 1; k < len(ref.Trace) && k <= j+8; k++ {
+					if rd, w := p.Insts[ref.Trace[k].Idx].Writes(); w && rd == r {
+						f.warAfterLoadUse = true
+					}
+				}
 			}
 		}
 	}
